@@ -110,7 +110,7 @@ def family(tier):
             for space in itertools.combinations(lo, k):
                 splits.append(space)
         for si, space in enumerate(splits):
-            if tier != "thorough" and si % 2 and len(space) == 2:
+            if tier != "thorough" and si % 2 and len(space) == 2 and len(space) != n:       # (every rank in space: always kept)
                 continue
             time_ = [r for r in lo if r not in space]
             for style in (("pos",) if label.startswith("flattened") else ("pos", "coord", "mixed")):
